@@ -129,6 +129,16 @@ func addDecimals(receiver object.Object, objType object.ObjectType, args ...obje
 			return nil, errors.New(msg)
 		}
 
+		if decimalArg.Value < 0 {
+			msg := fmt.Sprintf(fail.ErrFuncArgNegative, "decimal", objType)
+			return nil, errors.New(msg)
+		}
+
+		if decimalArg.Value > maxStrLen {
+			msg := fmt.Sprintf(fail.ErrFuncResultTooLong, "decimal", objType, maxStrLen)
+			return nil, errors.New(msg)
+		}
+
 		decimals = int(decimalArg.Value)
 	}
 
